@@ -121,6 +121,14 @@ def _run_job(args):
     t0 = time.time()
     smt.reset_stats()
     try:
+        from . import facade as _facade
+
+        _facade.OPAQUE_INV_FROM = None  # per-job switches must not leak between jobs run by the same worker
+        _facade.USED_STUBS.clear()
+        _facade._ACTIVE[0] = False
+    except Exception:
+        pass
+    try:
         res = fn(config)
         if not isinstance(res, JobResult):
             raise TypeError("job did not return a JobResult")
